@@ -45,6 +45,26 @@ claimed = {
          "Connection.addSubscriber/addSubscriberToAll/dispatch and the remover closures are executed from SSA over every history of K operations with symbolic type strings (map keys compared by the solver); a second goroutine that unsubscribes during a dispatch is modelled at every callback boundary and completes iff the RWMutex is free; the executor's mutex model checks that callbacks/callbacksAll/callbackID are only read under the lock and only written under the exclusive lock. The oracle is a flat list of subscriptions.",
          "Trusted: as C16; sequential consistency of sync.RWMutex; Go's random map iteration order replaced by insertion order (assertions are insensitive to it); real parallel data races are represented by the lock discipline only.",
          "DESIGN.md §5 C13"),
+ "C01": (E1, "bounded symbolic execution of the real go/ssa + SMT (z3), differential against an independent WHATWG interpreter: all byte strings <= N x all read segmentations x both entry points",
+         "sse.Read and (*Connection).read - parser.New, bufio.Scanner, splitFunc, FieldParser, read(), strconv.ParseUint, strings.Builder, all from their SSA - are executed on a stream of N symbolic bytes handed out by a reader whose chunk sizes are forked over every segmentation, with every early-stop position; the events, the error identity, the retry callbacks and the stored last event ID are compared by z3 on every path with an independently written one-pass WHATWG interpreter. Each path is an equivalence class of streams, so within the bound nothing is sampled; templates extend the reach to field-name-length streams.",
+         "Trusted: go/ssa, executor semantics (validated by native replay of sample paths and of every counterexample), z3; the oracle harness/sse_oracle.go is part of the claim (byte-transparent, see DESIGN §4.1).",
+         "DESIGN.md §5 C01"),
+ "C20": (E1, "bounded symbolic execution of the real go/ssa + SMT (z3): all streams <= N x all segmentations x small scanner limits (the real bufio.Scanner growth logic runs with small numbers)",
+         "Read with ReadConfig.MaxEventSize = L and Connection.Buffer(buf, L) (every small initial buffer, also the limit given by the buffer alone) are executed from SSA including bufio.Scanner's buffer growth/compaction; a counting reader with forked chunk sizes feeds N symbolic bytes; z3 decides on every path: no Go panic, an oversized token yields ErrTooLong after exactly the earlier events and at most limit bytes read beyond the last completed token, smaller tokens are delivered intact and completely.",
+         "Trusted: as C01; the 4 KiB/64 KiB constants themselves are outside the claim (same code, larger numbers).",
+         "DESIGN.md §5 C20"),
+ "C11": (E1, "bounded symbolic execution of the real go/ssa + SMT (z3): streams x ways of ending x segmentations; the Connect loop against a scripted transport with symbolic scripts and cancellation points",
+         "Parser.Next/Err, read(), Connection.read and the whole Connect/doConnect loop (timer, select, backoff, errors.Is) are executed from SSA; the stream bytes, the way the body ends (clean, read error at any offset, cancellation at any offset), the script of attempt outcomes, the validator verdict, the retry limit and the cancellation instant are symbolic or forked; z3 decides that Connect never returns nil, returns the context's error iff the context is done, returns at once on validator/body-reset failure, and otherwise wraps the last attempt's real error; read errors are never replaced by ErrUnexpectedEOF.",
+         "Trusted: as C01; (*http.Client).Do is a stub calling Transport.RoundTrip and wrapping failures in *url.Error; timers fire at once; select among ready cases forks.",
+         "DESIGN.md §5 C11"),
+ "C10": (E1, "bounded symbolic execution of the real Connect loop (go/ssa) + SMT (z3) against a scripted transport: all scripts of <= A attempts x body kinds",
+         "resetRequest, resetRequestBody, Connection.read and the Connect loop run from SSA against a transport whose script (transport failure / rejected response / 200 with a template stream containing symbolic id bytes, ending cleanly, with a read error or cut before dispatch) is forked and symbolic; the Last-Event-ID header of every request is compared with the ID the WHATWG oracle says was last dispatched, the request body identity with the fresh-body-per-retry rule.",
+         "Trusted: as C11.",
+         "DESIGN.md §5 C10"),
+ "C12": (E1, "bounded symbolic execution of the real go/ssa + SMT (z3 bit-vectors and IEEE floating point): mergeDefaults for all configurations, the backoff controller for all event sequences of length K, the Connect loop for retry accounting",
+         "mergeDefaults is decided for every Backoff value (64-bit integers and all non-NaN doubles); backoffController.next/reset run from SSA through every sequence of K events with a symbolic non-decreasing clock and symbolic MaxElapsedTime, compared with the recurrence b_(k+1)=min(b_k*M, MaxInterval); OnRetry durations are compared with the durations the (stubbed) timer is armed with; a server retry field with symbolic digits becomes b_1 of the next series.",
+         "Trusted: as C11; Jitter/Multiplier in the schedule clauses are the listed concrete values (symbolic J/M does not terminate in any available solver: measured in DESIGN §2.5); rng is an arbitrary double in [0,1).",
+         "DESIGN.md §5 C12"),
 }
 pending = "check not built yet (engine work in progress; will be decided with the same SSA->SMT technique or declared not applicable)"
 na_reasons = {}
